@@ -2,6 +2,7 @@ package world
 
 import (
 	"context"
+	"encoding/base64"
 	"errors"
 	"fmt"
 	"sort"
@@ -177,6 +178,7 @@ type RawEntry struct {
 	HasNum   bool
 	Upstream string
 	UpEntry  string
+	Msg      string
 	Valid    bool
 }
 
@@ -197,10 +199,27 @@ func ParseRaw(id string, c *simstore.CommitObj) *RawEntry {
 		return e
 	}
 	haveSkip := false
+	inMsg := false
+	b64 := ""
+	defer func() {
+		if b64 != "" {
+			if m, err := base64.StdEncoding.DecodeString(b64); err == nil {
+				e.Msg = string(m)
+			}
+		}
+	}()
 	for _, l := range lines[2:] {
 		l = strings.TrimSpace(l)
 		if l == "-----BEGIN MESSAGE-----" {
-			break
+			inMsg = true
+			continue
+		}
+		if inMsg {
+			if l == "-----END MESSAGE-----" {
+				break
+			}
+			b64 += l
+			continue
 		}
 		k, v, ok := strings.Cut(l, ":")
 		if !ok {
@@ -457,4 +476,9 @@ func (w *World) MakeCommit(opID int, parents []string, files map[string]string, 
 // LoadAttestations is a thin wrapper used by approval operations.
 func LoadAttestations(st gitstore.Storer) (*attestations.Attestations, error) {
 	return attestations.LoadCurrentAttestations(st)
+}
+
+// RecordEntryNoNumber records a legacy, unnumbered reference entry.
+func RecordEntryNoNumber(st gitstore.Storer, ref, target string) error {
+	return rsl.NewReferenceEntry(ref, hashOf(target)).CommitWithoutNumber(st)
 }
